@@ -1,10 +1,10 @@
 #!/bin/bash
-# usage: run_scenario.sh <scenario file> <package dir relative to /repo> [repo]
+# usage: run_scenario.sh <scenario file> <package dir relative to /repo> [repo] [extra go test flags]
 # Injects the scenario test into the package with -overlay and runs it.
 set -u
-F="$(readlink -f "$1")"; PKG="$2"; REPO="${3:-/repo}"
+F="$(readlink -f "$1")"; PKG="$2"; REPO="${3:-/repo}"; EXTRA="${4:-}"
 D=$(mktemp -d /var/tmp/sonicvc-scn-XXXX)
 trap 'rm -rf "$D"' EXIT
 echo "{\"Replace\":{\"$REPO/$PKG/zz_sonicvc_scenario_test.go\":\"$F\"}}" > "$D/ov.json"
 cd "$REPO" && PATH=/opt/veriftools/go1.26.8/bin:$PATH GOFLAGS=-mod=mod GOPROXY=off GOSUMDB=off GOTOOLCHAIN=local \
-  go test -overlay "$D/ov.json" -vet=off -count=1 -timeout 120s -run 'TestSonicvcScenario' -v "./$PKG" 2>&1 | tail -15
+  go test $EXTRA -overlay "$D/ov.json" -vet=off -count=1 -timeout 120s -run 'TestSonicvcScenario' -v "./$PKG" 2>&1 | tail -15
